@@ -11,15 +11,22 @@ LEVEL = "model_checking"
 def gen_cases(ctx):
     quick = ctx.tier == "quick"
     cases = []
-    for mod, cfg, lab in (("IdSetDense", "MCIdSetDense.cfg", "IdSetDense I=>A, 12 boundary ids, all histories to depth 7"),
-                          ("IdSetSmall", "MCIdSetSmall.cfg", "IdSetSmall I=>A, all histories to depth 7"),
-                          ("RelationsMap", "MCRelationsMap.cfg", "RelationsMap I=>A, all stashes of <= 3 pairs x 3 builders"),
-                          ("ItemStash", "MCItemStash.cfg", "ItemStash I=>A, all histories to depth 10, automatic GC reachable")):
-        r = vlib.tlc_ok(vlib.tlc(mod, cfg, timeout=1500), lab)
-        ctx.add_tlc(r, lab)
     nsim = 400 if quick else 8000
+    mcs = (("IdSetDense", "MCIdSetDense.cfg", "IdSetDense I=>A, 12 boundary ids, all histories to depth 7"),
+           ("IdSetSmall", "MCIdSetSmall.cfg", "IdSetSmall I=>A, all histories to depth 7"),
+           ("RelationsMap", "MCRelationsMap.cfg", "RelationsMap I=>A, all stashes of <= 3 pairs x 3 builders"),
+           ("ItemStash", "MCItemStash.cfg", "ItemStash I=>A, all histories to depth 10, automatic GC reachable"))
+    jobs = [(lambda m=m, c=c: vlib.tlc(m, c, timeout=1500, workers=6)) for m, c, _ in mcs]
+    jobs += [lambda: vlib.tlc("IdSetDense", "GenIdSetDense.cfg", workers=4, simulate=nsim, depth=13, seed=ctx.seed),
+             lambda: vlib.tlc("IdSetSmall", "GenIdSetSmall.cfg", workers=4, simulate=nsim, depth=13, seed=ctx.seed),
+             lambda: vlib.tlc("RelationsMap", "GenRelationsMap.cfg", workers=6),
+             lambda: vlib.tlc("ItemStash", "GenItemStash.cfg", workers=4, simulate=nsim // 2, depth=15, seed=ctx.seed),
+             lambda: vlib.build("containers_replay", "containers_replay.cpp", flags=["-DOSMIUM_VERIF_STASH_GC_MIN=2"])]
+    res = vlib.parallel(*jobs)
+    for (mod, cfg, lab), r in zip(mcs, res[:4]):
+        ctx.add_tlc(vlib.tlc_ok(r, lab), lab)
     # IdSetDense: simulated histories, replayed on several instantiations
-    r = vlib.tlc_ok(vlib.tlc("IdSetDense", "GenIdSetDense.cfg", workers=8, simulate=nsim, depth=13, seed=ctx.seed), "dense export")
+    r = vlib.tlc_ok(res[4], "dense export")
     ctx.add_tlc(r, "IdSetDense simulated histories (depth 12)")
     for i, c in enumerate(r.cases):
         variants = ["u32low", "u64low", "u32mid"]
@@ -27,15 +34,15 @@ def gen_cases(ctx):
             variants += ["u32top", "u64big"]
         for v in variants:
             cases.append(dict(c, id="dense-%d-%s" % (i, v), kind="dense", variant=v))
-    r = vlib.tlc_ok(vlib.tlc("IdSetSmall", "GenIdSetSmall.cfg", workers=8, simulate=nsim, depth=13, seed=ctx.seed), "small export")
+    r = vlib.tlc_ok(res[5], "small export")
     ctx.add_tlc(r, "IdSetSmall simulated histories (depth 12)")
     for i, c in enumerate(r.cases):
         cases.append(dict(c, id="small-%d" % i, kind="small"))
-    r = vlib.tlc_ok(vlib.tlc("RelationsMap", "GenRelationsMap.cfg", workers=8), "relmap export")
+    r = vlib.tlc_ok(res[6], "relmap export")
     ctx.add_tlc(r, "RelationsMap: every stash of <= 3 pairs over 6 ids (3 beyond the 32 bit border) x 3 builders")
     for i, c in enumerate(r.cases):
         cases.append(dict(c, id="relmap-%d" % i, kind="relmap"))
-    r = vlib.tlc_ok(vlib.tlc("ItemStash", "GenItemStash.cfg", workers=8, simulate=nsim // 2, depth=15, seed=ctx.seed), "stash export")
+    r = vlib.tlc_ok(res[7], "stash export")
     ctx.add_tlc(r, "ItemStash simulated histories (depth 14)")
     for i, c in enumerate(r.cases):
         cases.append(dict(c, id="stash-%d" % i, kind="stash"))
